@@ -56,18 +56,25 @@ def T (s : String) : List Piece := [.tok s]
 theorem chars_T (s : String) : pchars (T s) = s.toList := by simp [pchars, T, Piece.chars]
 theorem toks_T (s : String) : ptoks (T s) = [s] := by simp [ptoks, T, Piece.toks]
 
+/-- a name as written: an escaped identifier (`\\name `) ends by itself at its blank, any other name is a word -/
+def N (s : String) : List Piece := if s.startsWith "\\" then [.self s s] else T s
+theorem chars_N (s : String) : pchars (N s) = s.toList := by
+  unfold N; split <;> simp [pchars, T, Piece.chars]
+theorem toks_N (s : String) : ptoks (N s) = [s] := by
+  unfold N; split <;> simp [ptoks, T, Piece.toks]
+
 /-! expressions -/
 
 def atomP : Atom → List Piece
-  | .id n => T (fixName n)
-  | .bit n i => T (fixName n) ++ T "[" ++ T (showInt i) ++ T "]"
-  | .part n l r => T (fixName n) ++ T "[" ++ T (showInt l) ++ T ":" ++ T (showInt r) ++ T "]"
+  | .id n => N (fixName n)
+  | .bit n i => N (fixName n) ++ T "[" ++ T (showInt i) ++ T "]"
+  | .part n l r => N (fixName n) ++ T "[" ++ T (showInt l) ++ T ":" ++ T (showInt r) ++ T "]"
 
 theorem chars_atomP (a : Atom) : pchars (atomP a) = (Text.atomText a).toList := by
-  cases a <;> simp [atomP, Text.atomText, pchars_append, chars_T, String.toList_append]
+  cases a <;> simp [atomP, Text.atomText, pchars_append, chars_T, chars_N, String.toList_append]
 
 theorem toks_atomP (a : Atom) : ptoks (atomP a) = atomToks (toX a) := by
-  cases a <;> simp [atomP, atomToks, toX, ptoks_append, toks_T, nameT]
+  cases a <;> simp [atomP, atomToks, toX, ptoks_append, toks_T, toks_N, nameT]
 
 def exprP : PExpr → List Piece
   | .empty => []
@@ -79,7 +86,7 @@ theorem chars_exprP (e : PExpr) : pchars (exprP e) = (peText e).toList := by
   | empty => rfl
   | atom a => exact chars_atomP a
   | concat as =>
-    simp only [exprP, peText, Text.concatText, pchars_append, chars_T, String.toList_append, pchars_intercalate,
+    simp only [exprP, peText, Text.concatText, pchars_append, chars_T, chars_N, String.toList_append, pchars_intercalate,
       String.toList_intercalate, chars_W1, List.map_map]
     congr 2
     congr 1
@@ -100,7 +107,7 @@ theorem toks_exprP (e : PExpr) : ptoks (exprP e) = exprToks (toXE e) := by
   | empty => rfl
   | atom a => exact toks_atomP a
   | concat as =>
-    simp only [exprP, toXE, exprToks, ptoks_append, toks_T, ptoks_intercalate, toks_W1, List.append_nil, List.map_map,
+    simp only [exprP, toXE, exprToks, ptoks_append, toks_T, toks_N, ptoks_intercalate, toks_W1, List.append_nil, List.map_map,
       sepToks_eq, List.singleton_append, List.cons_append, List.nil_append]
     have : as.map (ptoks ∘ atomP) = as.map (atomToks ∘ toX) := by
       apply List.map_congr_left
@@ -134,9 +141,9 @@ def itemText (kv : String × Option String) : String :=
 theorem chars_attrP (kv : String × Option String) : pchars (attrP kv) = (itemText kv).toList := by
   obtain ⟨k, v⟩ := kv
   cases v with
-  | none => simp [attrP, itemText, chars_T]
+  | none => simp [attrP, itemText, chars_T, chars_N]
   | some v =>
-    simp only [attrP, itemText, pchars_append, chars_T, chars_W1, chars_valP, String.toList_append]
+    simp only [attrP, itemText, pchars_append, chars_T, chars_N, chars_W1, chars_valP, String.toList_append]
     have : " = ".toList = " ".toList ++ "=".toList ++ " ".toList := by decide
     rw [this]; simp
 
@@ -151,7 +158,7 @@ theorem chars_starP (a : Attrs) : pchars (starP a) = (starText a).toList := by
   | cons kv rest =>
     rw [starText_eq _ (by simp)]
     unfold starP
-    simp only [List.isEmpty_cons, Bool.false_eq_true, if_false, pchars_append, chars_T, chars_W1, chars_NL,
+    simp only [List.isEmpty_cons, Bool.false_eq_true, if_false, pchars_append, chars_T, chars_N, chars_W1, chars_NL,
       pchars_intercalate, String.toList_append, String.toList_intercalate, List.map_map]
     have h1 : "(* ".toList = "(".toList ++ "*".toList ++ " ".toList := by decide
     have h2 : " *)\n".toList = " ".toList ++ "*".toList ++ ")".toList ++ "\n".toList := by decide
@@ -174,14 +181,14 @@ theorem sepAttr_eq : ∀ (a : Attrs), sepAttr a = List.intercalate [","] (a.map 
 
 theorem toks_attrP (kv : String × Option String) : ptoks (attrP kv) = attrToks kv := by
   obtain ⟨k, v⟩ := kv
-  cases v <;> simp [attrP, attrToks, ptoks_append, toks_T, toks_W1, toks_valP]
+  cases v <;> simp [attrP, attrToks, ptoks_append, toks_T, toks_N, toks_W1, toks_valP]
 
 theorem toks_starP (a : Attrs) : ptoks (starP a) = starToks a := by
   unfold starP starToks
   cases a with
   | nil => rfl
   | cons kv rest =>
-    simp only [List.isEmpty_cons, Bool.false_eq_true, if_false, ptoks_append, toks_T, toks_W1, toks_NL, ptoks_intercalate,
+    simp only [List.isEmpty_cons, Bool.false_eq_true, if_false, ptoks_append, toks_T, toks_N, toks_W1, toks_NL, ptoks_intercalate,
       List.append_nil, List.map_map, sepAttr_eq, List.nil_append]
     have hm : (kv :: rest).map (ptoks ∘ attrP) = (kv :: rest).map attrToks := by
       apply List.map_congr_left
